@@ -34,6 +34,9 @@ long g_armCount = 0;
 shim::Mode g_armMode = shim::Off;
 int g_armErr = 0;
 bool g_fired = false;
+bool g_gateCreating = false; // set by doOpen: the open would create the file
+long g_thenCrashAt = 0; // after the armed failure fired: crash before the j-th later mutating call (0 = off)
+long g_thenCount = 0;
 const char *g_firedName = "";
 
 const int64_t DAY_NS = 86400LL * 1000000000LL;
@@ -85,7 +88,31 @@ void stampFd(int fd)
 int gate(const char *name)
 {
     ++g_mutating;
+    if (g_armMode != shim::Off && g_fired && g_thenCrashAt > 0 && ++g_thenCount == g_thenCrashAt) {
+        // second stage: the process dies at a later boundary, inside whatever fallback the failed call led into
+        fprintf(stderr, "SHIM crash-before %s (%ld calls after the injected failure)\n", name, g_thenCrashAt);
+        _exit(113);
+    }
+    if (g_armMode == shim::FailSticky && g_fired) {
+        // a persisting condition (directory not writable, disk full): every later call that changes the directory fails too
+        const bool ns = strncmp(name, "rename", 6) == 0 || strncmp(name, "link", 4) == 0 || strncmp(name, "unlink", 6) == 0
+                || (strcmp(name, "open") == 0 && g_gateCreating);
+        if (ns) {
+            errno = g_armErr;
+            return 1;
+        }
+        return 0;
+    }
     if (g_armMode == shim::Off || g_fired) return 0;
+    if (g_armMode == shim::FailSticky) {
+        const bool ns = strncmp(name, "rename", 6) == 0 || strncmp(name, "link", 4) == 0 || strncmp(name, "unlink", 6) == 0
+                || (strcmp(name, "open") == 0 && g_gateCreating);
+        if (++g_armCount < g_armK || !ns) return 0;
+        g_fired = true;
+        g_firedName = name;
+        errno = g_armErr;
+        return 1;
+    }
     if (++g_armCount != g_armK) return 0;
     g_fired = true;
     g_firedName = name;
@@ -116,7 +143,9 @@ int doOpen(int dirfd, const char *path, int flags, mode_t mode, const char *name
     const bool writing = (flags & O_ACCMODE) != O_RDONLY;
     if (w && writing) {
         bool existed = syscall(SYS_faccessat, AT_FDCWD, path, F_OK) == 0;
+        g_gateCreating = !existed && (flags & O_CREAT);
         int g = gate(name);
+        g_gateCreating = false;
         if (g == 1) {
             shim::Event e;
             e.kind = "open";
@@ -185,6 +214,13 @@ void arm(long k, Mode m, int err)
     g_armMode = m;
     g_armErr = err;
     g_fired = false;
+    g_thenCrashAt = 0;
+    g_thenCount = 0;
+}
+void thenCrashAt(long j)
+{
+    g_thenCrashAt = j;
+    g_thenCount = 0;
 }
 bool faultFired() { return g_fired; }
 const char *faultCallName() { return g_firedName; }
